@@ -32,11 +32,12 @@ def encoder(kind='plain'):
 
 
 class SubCase(object):
-    def __init__(self, case, indices, container, bad=None):
+    def __init__(self, case, indices, container, bad=None, indices2=None):
         self.case, self.indices, self.container, self.bad = case, indices, container, bad
+        self.indices2 = indices2        # a second extraction from the same message object (history clause)
 
     def key(self):
-        return hashlib.sha1((self.case.key() + repr((self.indices, self.container, self.bad))).encode()).hexdigest()[:20]
+        return hashlib.sha1((self.case.key() + repr((self.indices, self.container, self.bad, self.indices2))).encode()).hexdigest()[:20]
 
     def collection(self, idx=None):
         idx = self.indices if idx is None else idx
@@ -44,15 +45,17 @@ class SubCase(object):
 
     def summary(self):
         s = self.case.summary()
-        s.update({'indices': self.indices, 'container': self.container, 'out_of_range_probe': self.bad})
+        s.update({'indices': self.indices, 'container': self.container, 'out_of_range_probe': self.bad,
+                  'second_extraction': self.indices2})
         return s
 
     def to_json(self):
-        return {'case': self.case.to_json(), 'indices': self.indices, 'container': self.container, 'bad': self.bad}
+        return {'case': self.case.to_json(), 'indices': self.indices, 'container': self.container, 'bad': self.bad,
+                'indices2': self.indices2}
 
     @staticmethod
     def from_json(d):
-        return SubCase(gmsg.Case.from_json(d['case']), list(d['indices']), d['container'], d.get('bad'))
+        return SubCase(gmsg.Case.from_json(d['case']), list(d['indices']), d['container'], d.get('bad'), d.get('indices2'))
 
 
 def gen_indices(ch, n):
@@ -83,7 +86,8 @@ def gen_case(ch, opts):
     bad = None
     if ch.bool(1, 3):
         bad = ch.choice([[n], [-1], [0, n], [n - 1, -1], [n + 5]])
-    sc = SubCase(case, idx, container, bad)
+    idx2 = gen_indices(ch, n)[0] if ch.bool() else None
+    sc = SubCase(case, idx, container, bad, idx2)
     sc.kind = kind
     return sc
 
@@ -200,6 +204,29 @@ def check_case(sc):
             o3 = sut.call(lambda: encoder(dk).process(src.subset(sel)).serialized_bytes)
             if not o3.ok or o3.value != r:
                 out.fail('order / repetition of the indices changes the result (%s coder)' % dk, indices=sc.indices)
+        # several extractions from one message object are independent of each other: take two, encode them afterwards
+        if isinstance(r, bytes) and sc.indices2 is not None:
+            out.classes.append('two_extractions_then_encode')
+            sel2 = sorted(set(sc.indices2))
+            first = sut.call(src.subset, sc.collection())
+            second = sut.call(src.subset, sc.collection(sc.indices2))
+            if not (first.ok and second.ok):
+                out.fail('a second extraction from the same message raised (%s coder)' % dk,
+                         error=(first.msg if not first.ok else second.msg))
+            else:
+                e1 = sut.call(lambda: encoder(dk).process(first.value).serialized_bytes)
+                if not e1.ok or e1.value != r:
+                    out.fail('an extraction encoded after another extraction was taken differs from the same extraction '
+                             'encoded at once (%s coder)' % dk, first=sc.indices, second=sc.indices2,
+                             error=None if e1.ok else e1.msg)
+                fresh = sut.call(decoder(dk).process, case.bytes)
+                e2 = sut.call(lambda: encoder(dk).process(second.value).serialized_bytes)
+                e2f = sut.call(lambda: encoder(dk).process(fresh.value.subset(sel2)).serialized_bytes)
+                if not e2.ok or not e2f.ok or e2.value != e2f.value:
+                    out.fail('a second extraction differs from the same extraction taken from a freshly decoded message '
+                             '(%s coder)' % dk, first=sc.indices, second=sc.indices2, error=None if e2.ok else e2.msg)
+                if sut.observe(src) != before or md_of(src) != before_md or src.serialized_bytes != before_bytes:
+                    out.fail('subset() modified the source message (%s coder)' % dk)
         if sc.bad is not None:
             out.classes.append('out_of_range_probe')
             ob = sut.call(src.subset, sc.collection(sc.bad))
